@@ -5,224 +5,286 @@ R2 one sub-block index formula and its inverse
 R3 collapse is exact; nothing is selected twice; no subtree is discarded;
    every child is visited
 R4 ordering and core range
+
+All rules work on value terms (terms.py): the expressions are taken with
+temporaries resolved, the level-dependent quantities (shift, scale, mask) are
+substituted for each of the four levels and the results compared as bit
+layouts (provenance) or arithmetic normal forms, so naming, staging and
+operand order of the source do not matter.
 """
 import ast
-import copy
 
 from ..core import AnalysisError, finish, unparse
 from ..constfold import Folder
 from ..bits import provenance
 from ..dataflow import Flow, chain, call_name
-from ..poly import Poly
-from ..util import calls_in, qual, formals, raises_of, returns_of, has_fact
+from ..poly import Poly, eq
+from ..terms import Terms, reify, plain, match, V, ANY, show, subterms, \
+    mk_cmp, is_none, stores, method_calls, truth_paths, yields, alternatives, \
+    one_level
+from ..util import calls_in, qual, formals, raises_of, returns_of
 
 MOD = "rig.machine_control.regions"
 TREE = MOD + ":RegionCoreTree"
+SELF = ("param", "self")
 
 EXPLANATION = (
     "R1: bit provenance of the region word in get_region_for_chip and in "
     "RegionCoreTree.get_regions_and_coremasks: x block at 31:24, y block at "
-    "23:16, level at 17:16, select bits in 15:0; the per-level mask is "
-    "folded for the four levels and must clear exactly the bits below the "
+    "23:16, level at 17:16, select bits in 15:0; the word is evaluated for "
+    "the four levels and must keep exactly the coordinate bits above the "
     "block size 4^(4-level) (which also frees bits 17:16 for the level). R2: "
     "the sub-block index expressions of add_core and get_region_for_chip "
-    "have the same normal form; the child's base inverts it (x <- index % 4, "
-    "y <- index // 4, step scale/4 = 1 << shift for all four levels). R3: "
-    "collapse exactly at 0xffff = all 16 children, never at the root; the "
-    "parent bit is set iff the child reported full; a selected sub-block is "
-    "not descended into; children are only ever created, never discarded; "
-    "the traversal's child indices fold to all of 0..15. R4: the result is "
-    "sorted by (region, mask); core numbers are checked against the per-core "
-    "array size.")
+    "have the same normal form for every level; the child's base inverts it "
+    "(x part * scale/4 in x, y part * scale/4 in y, scale/4 = 1 << shift). "
+    "R3: collapse exactly at 0xffff = all 16 children, never at the root; "
+    "the parent bit is set iff the child reported full; a selected sub-block "
+    "is not descended into; children are only ever created, never "
+    "discarded; the traversal's child indices evaluate to all of 0..15. R4: "
+    "the result is sorted by (region, mask); core numbers are checked "
+    "against the per-core array size.")
 NOT_DECIDED = [
     "exactness of the cover for every subset of cores (an inductive argument "
     "over the tree); R1-R4 are its per-step necessary conditions",
 ]
 
 
-def _fold_with(folder, mod, expr, env):
-    return folder.eval(expr, dict(env), mod)
+def _wp(e):
+    for n in ast.walk(e):
+        for c in ast.iter_child_nodes(n):
+            c._parent = n
+    ast.fix_missing_locations(e)
+    return e
+
+
+def _subst(t, m):
+    if t in m:
+        return m[t]
+    if not isinstance(t, tuple) or not t or t[0] == "const":
+        return t
+    return tuple(_subst(x, m) if isinstance(x, tuple) else x for x in t)
+
+
+def _fold(t):
+    """Fold arithmetic on integer constants (incl. ** // / %) and drop int()
+    around what is then integral."""
+    if not isinstance(t, tuple) or not t or t[0] == "const":
+        return t
+    t = tuple(_fold(x) if isinstance(x, tuple) else x for x in t)
+    if t[0] == "binop" and t[2][0] == "const" and t[3][0] == "const":
+        a, b = t[2][1], t[3][1]
+        if all(isinstance(v, (int, float)) and not isinstance(v, bool)
+               for v in (a, b)):
+            try:
+                v = {"Add": lambda: a + b, "Sub": lambda: a - b,
+                     "Mult": lambda: a * b, "Pow": lambda: a ** b
+                     if abs(b) < 64 else None,
+                     "FloorDiv": lambda: a // b, "Mod": lambda: a % b,
+                     "Div": lambda: a / b, "LShift": lambda: a << b,
+                     "RShift": lambda: a >> b, "BitAnd": lambda: a & b,
+                     "BitOr": lambda: a | b, "BitXor": lambda: a ^ b}.get(
+                         t[1], lambda: None)()
+            except Exception:
+                v = None
+            if v is not None:
+                if isinstance(v, float) and v == int(v):
+                    v = int(v)
+                return ("const", v)
+    if t[0] == "call" and t[1] == ("global", "int") and len(t[2]) == 1 and \
+            not any(st[0] == "const" and isinstance(st[1], float)
+                    for st in subterms(t[2][0])) and not any(
+                        st[0] == "binop" and st[1] == "Div"
+                        for st in subterms(t[2][0])):
+        return t[2][0]
+    return t
+
+
+class _Levels(object):
+    """The tree's level-dependent attributes, from __init__."""
+
+    def __init__(self, program):
+        init = program.get(TREE + ".__init__")
+        self.init = init
+        T = Terms(init)
+        self.lv = ("param", formals(init)[3])
+        self.attr = {}
+        for b_ in T.binds:
+            if b_.mode == "assign" and b_.var.startswith("self."):
+                self.attr[b_.var[5:]] = T._bind_term(b_)
+        for need in ("shift", "scale", "level", "base_x", "base_y",
+                     "locally_selected"):
+            if need not in self.attr:
+                raise AnalysisError("RegionCoreTree.__init__: self.%s" % need)
+
+    def at(self, t, L):
+        """``t`` (a term of a method) at tree level L."""
+        m = {}
+        for name in ("shift", "scale"):
+            m[("attr", SELF, name)] = _subst(plain(self.attr[name]),
+                                             {self.lv: ("const", L)})
+        m[("attr", SELF, "level")] = ("const", L)
+        return _fold(_subst(plain(t), m))
+
+
+def _poly(fl, t):
+    return fl.sym(_wp(reify(t)), fl.cfg.entry)
 
 
 def r1_layout(program, folder, rep):
     fn = program.get(MOD + ":get_region_for_chip")
     inst = qual(fn)
-    mod = fn._module
-    fl = Flow(fn)
+    T = Terms(fn)
     ps = formals(fn)
     x, y, level = ps[0], ps[1], ps[2]
-    rets = returns_of(fn)
+    rets = [T.term(r.value) for r in returns_of(fn) if r.value is not None]
     if len(rets) != 1:
         raise AnalysisError("get_region_for_chip: one return expected")
-    rn = fl.cfg.node_of(rets[0])
-    e = rets[0].value
-    if chain(e):
-        ds = fl.reaching(chain(e), rn)
-        if len(ds) == 1 and ds[0].mode == "assign":
-            e = ds[0].value
-    lay = provenance(e)
-    got = sorted((p.src, p.dst_lo) for p in lay.pieces)
-    # sources: nx, ny, level, and "1 << bit" (opaque)
-    byname = {p.src: p for p in lay.pieces}
-
-    def defn(nm):
-        ds = [d for d in fl.defs if d.var == nm and d.mode == "assign"]
-        return ds[0].value if len(ds) == 1 else None
-    ok = False
-    nxn = nyn = None
-    for p in lay.pieces:
-        v = defn(p.src) if p.src.isidentifier() else None
-        if v is not None and isinstance(v, ast.BinOp) and \
-                isinstance(v.op, ast.BitAnd):
-            if chain(v.left) == x and p.dst_lo == 24:
-                nxn = (p.src, chain(v.right))
-            if chain(v.left) == y and p.dst_lo == 16:
-                nyn = (p.src, chain(v.right))
-    lvl = [p for p in lay.pieces if p.src == level and p.dst_lo == 16]
-    sel = [p for p in lay.pieces if p.dst_lo == 0]
-    ok = nxn is not None and nyn is not None and len(lvl) == 1 and \
-        len(sel) == 1 and len(lay.pieces) == 4 and nxn[1] == nyn[1]
-    rep.check(ok, "C12-R1", inst, "region word = (x & mask) << 24 | (y & "
-              "mask) << 16 | level << 16 | select bit",
-              construct="region word %r" % (lay,), node=rets[0],
-              fail="the region word is assembled as %r; the documented "
-                   "layout has the x block at bit 24, the y block at bit 16, "
-                   "the level at bit 16 and the select bits at bit 0" %
-                   (lay,))
-    # select bit is 1 << bit
-    oks = False
-    if sel:
-        try:
-            se = ast.parse(sel[0].src, mode="eval").body
-            oks = isinstance(se, ast.BinOp) and isinstance(se.op, ast.LShift)\
-                and isinstance(se.left, ast.Constant) and se.left.value == 1
-            bitname = chain(se.right)
-        except SyntaxError:
-            bitname = None
-    rep.check(oks, "C12-R1", inst, "exactly one select bit (1 << sub-block "
-              "index) is set for a single chip",
-              construct="select bit", node=rets[0])
-    # per-level folding of shift and mask
-    maskname = nxn[1] if nxn else None
-    shift_e = defn("shift")
-    mask_e = defn(maskname) if maskname else None
-    if shift_e is None or mask_e is None:
-        raise AnalysisError("get_region_for_chip: shift/mask definitions")
+    R = rets[0]
+    sel = [st for st in subterms(R) if st[0] == "binop" and
+           st[1] == "LShift" and st[2] == ("const", 1)]
+    bits = set(st[3] for st in sel)
+    rep.check(len(bits) == 1, "C12-R1", inst, "exactly one select bit (1 << "
+              "sub-block index) is set for a single chip",
+              construct="select bit", node=fn)
+    BIT = list(bits)[0] if len(bits) == 1 else None
     for L in range(4):
-        sh = _fold_with(folder, mod, shift_e, {level: L})
-        mk = _fold_with(folder, mod, mask_e, {level: L, "shift": sh})
-        scale = 4 ** (4 - L)
-        want_mask = 0xffff & ~(scale - 1)
-        rep.check(sh == 6 - 2 * L and mk == want_mask and (mk & 3) == 0,
-                  "C12-R1", inst, "level %d: shift %d, mask 0x%04x clears "
-                  "exactly the bits below the block size %d" % (
-                      L, 6 - 2 * L, want_mask, scale),
-                  construct="level %d shift=%r mask=%r" % (L, sh, mk),
-                  node=fn)
+        RL = _fold(_subst(plain(R), {("param", level): ("const", L)}))
+        lay = provenance(reify(RL))
+        lo = 8 - 2 * L
+        okx = oky = True
+        cover = {x: 0, y: 0}
+        opaque = []
+        for p in lay.pieces:
+            if p.src in (x, y):
+                off = 24 if p.src == x else 16
+                n = p.n if p.n is not None else 64
+                if p.dst_lo - p.src_lo != off or p.src_lo < lo:
+                    okx = False
+                cover[p.src] |= ((1 << n) - 1) << p.src_lo
+            else:
+                opaque.append(p)
+        full = ((1 << 16) - 1) & ~((1 << lo) - 1)
+        ok = okx and cover[x] & 0xffff == full and cover[y] & 0xffff == full \
+            and lay.const == L << 16 and len(opaque) == 1 and \
+            opaque[0].dst_lo == 0 and opaque[0].src.startswith("1 <<")
+        rep.check(ok, "C12-R1", inst, "level %d: region word = x[15:%d] at "
+                  "bit 24 | y[15:%d] at bit 16 | level at bit 16 | select "
+                  "bit (the bits below the block size %d are cleared)" % (
+                      L, lo, lo, 4 ** (4 - L)),
+                  construct="level %d region word %r" % (L, lay), node=fn,
+                  fail="at level %d the region word is assembled as %r; the "
+                       "documented layout has x[15:%d] at bit 24, y[15:%d] "
+                       "at bit 16, the level at bit 16 and one select bit "
+                       "below" % (L, lay, lo, lo))
     # the tree's region word
     g = program.get(TREE + ".get_regions_and_coremasks")
-    gfl = Flow(g)
-    rc = [d for d in gfl.defs if d.mode == "assign" and
-          isinstance(d.value, ast.BinOp) and "<<" in unparse(d.value) and
-          "base_x" in unparse(d.value)]
-    if len(rc) != 1:
-        raise AnalysisError("get_regions_and_coremasks: region code")
-    lay2 = provenance(rc[0].value)
-    got2 = sorted((p.src, p.dst_lo) for p in lay2.pieces)
-    rep.check(got2 == [("self.base_x", 24), ("self.base_y", 16),
-                       ("self.level", 16)], "C12-R1", qual(g),
-              "the tree emits base_x << 24 | base_y << 16 | level << 16 (the "
-              "same layout as the single-chip word)",
-              construct="tree region code %r" % (lay2,), node=rc[0].value)
-    # pairs yielded are (region_code | subregions, coremask)
-    ys = [n for n in ast.walk(g) if isinstance(n, ast.Yield) and
-          isinstance(n.value, ast.Tuple)]
+    G = Terms(g)
+    own = [yv for yv in yields(G) if yv[1][0] == "tuple" and len(yv[1]) == 3
+           and yv[1][1][0] == "binop" and yv[1][1][1] == "BitOr"]
     oky = False
-    for yv in ys:
-        e0 = yv.value.elts[0]
-        if isinstance(e0, ast.BinOp) and isinstance(e0.op, ast.BitOr) and \
-                chain(e0.left) == rc[0].var:
-            oky = True
-    rep.check(oky, "C12-R1", qual(g), "each pair is (region code | selected "
-              "sub-blocks, core mask)", construct="tree pair", node=g)
-    # base alignment: child base = parent base + (scale/4) * index part, and
-    # scale/4 == 1 << shift for every level
-    init = program.get(TREE + ".__init__")
-    ifl = Flow(init)
-    sc = [d for d in ifl.defs if d.var == "self.scale"]
-    sf = [d for d in ifl.defs if d.var == "self.shift"]
-    if len(sc) != 1 or len(sf) != 1:
-        raise AnalysisError("RegionCoreTree.__init__: scale/shift")
-    lv = formals(init)[3]
+    lay2 = None
+    if len(own) == 1:
+        word = own[0][1][1]
+        for code, rest in ((word[2], word[3]), (word[3], word[2])):
+            lay2 = provenance(reify(plain(code)))
+            got2 = sorted((p.src, p.dst_lo, p.src_lo) for p in lay2.pieces)
+            if got2 == [("self.base_x", 24, 0), ("self.base_y", 16, 0),
+                        ("self.level", 16, 0)] and not lay2.const:
+                oky = True
+                break
+    rep.check(oky, "C12-R1", qual(g),
+              "the tree emits base_x << 24 | base_y << 16 | level << 16 (the "
+              "same layout as the single-chip word) or-ed with the selected "
+              "sub-blocks", construct="tree region code %r" % (lay2,),
+              node=g)
+    lv = _Levels(program)
     for L in range(4):
-        s_ = _fold_with(folder, init._module, sc[0].value, {lv: L})
-        h_ = _fold_with(folder, init._module, sf[0].value, {lv: L})
-        rep.check(s_ == 4 ** (4 - L) and h_ == 6 - 2 * L and
-                  s_ // 4 == 1 << h_, "C12-R2", qual(init),
+        s_ = lv.at(("attr", SELF, "scale"), L)
+        h_ = lv.at(("attr", SELF, "shift"), L)
+        rep.check(s_ == ("const", 4 ** (4 - L)) and
+                  h_ == ("const", 6 - 2 * L), "C12-R2", qual(lv.init),
                   "level %d: scale %d, shift %d, scale/4 == 1 << shift" % (
                       L, 4 ** (4 - L), 6 - 2 * L),
-                  construct="tree level %d scale=%r shift=%r" % (L, s_, h_),
-                  node=init)
-    return bitname
+                  construct="tree level %d scale=%s shift=%s" % (
+                      L, show(s_), show(h_)), node=lv.init)
+    return BIT
 
 
-def r2_index(program, rep, bitname):
+def _index_term(A):
+    """The sub-block index of add_core: the key used with self.subregions."""
+    keys = set()
+    for n in ast.walk(A.fn):
+        if isinstance(n, ast.Subscript) and \
+                chain(n.value) == "self.subregions":
+            keys.add(A.term(n.slice, A.cfg.node_containing(n)))
+    if len(keys) != 1:
+        raise AnalysisError("sub-block index definitions not found")
+    return list(keys)[0]
+
+
+def r2_index(program, rep, BIT):
     fn = program.get(MOD + ":get_region_for_chip")
     fl = Flow(fn)
-    bd = [d for d in fl.defs if d.var == bitname and d.mode == "assign"]
+    level = ("param", formals(fn)[2])
     add = program.get(TREE + ".add_core")
-    afl = Flow(add)
-    sd = [d for d in afl.defs if d.var == "subregion" and d.mode == "assign"]
-    if len(bd) != 1 or len(sd) != 1:
+    A = Terms(add)
+    lv = _Levels(program)
+    if BIT is None:
         raise AnalysisError("sub-block index definitions not found")
-    # evaluate add_core's expression in get_region_for_chip's name space
-    e = ast.parse(unparse(sd[0].value), mode="eval").body
-
-    class Ren(ast.NodeTransformer):
-        def visit_Attribute(self, node):
-            if chain(node) == "self.shift":
-                return ast.copy_location(ast.Name(id="shift",
-                                                  ctx=ast.Load()), node)
-            return self.generic_visit(node)
-    e = Ren().visit(e)
-    ast.fix_missing_locations(e)
-    for n in ast.walk(e):
-        for c in ast.iter_child_nodes(n):
-            c._parent = n
-    a = fl.sym(bd[0].value, bd[0].node)
-    b = fl.sym(e, bd[0].node)
-    rep.check(a == b, "C12-R2", qual(add), "add_core and get_region_for_chip "
+    IDX = _index_term(A)
+    same = shape = True
+    detail = ""
+    for L in range(4):
+        a = _poly(fl, _fold(_subst(plain(BIT), {level: ("const", L)})))
+        b = _poly(fl, lv.at(IDX, L))
+        if a != b:
+            same = False
+            detail = "level %d: %r vs %r" % (L, b, a)
+        xs = [m for m, c in a.t.items() if c == 1 and m and "x" in m[0] and
+              "y" not in m[0]]
+        ysv = [m for m, c in a.t.items() if c == 4 and m and "y" in m[0] and
+               "x" not in m[0].replace("bitand", "").replace("rshift", "")
+               .replace("lshift", "")]
+        shape = shape and len(a.t) == 2 and len(xs) == 1 and len(ysv) == 1
+    rep.check(same, "C12-R2", qual(add), "add_core and get_region_for_chip "
               "compute the same sub-block index ((x >> shift) & 3) + 4 * ((y "
-              ">> shift) & 3)", construct="index forms %r vs %r" % (a, b),
-              node=sd[0].value,
-              fail="the sub-block index in add_core is %r but "
-                   "get_region_for_chip uses %r" % (b, a))
-    # shape: coefficient 1 on the x part, 4 on the y part
-    okc = False
-    xs = [m for m, c in a.t.items() if c == 1 and m and "x" in m[0]]
-    ysv = [m for m, c in a.t.items() if c == 4 and m and "y" in m[0]]
-    okc = len(a.t) == 2 and len(xs) == 1 and len(ysv) == 1
-    rep.check(okc, "C12-R2", qual(fn), "index = x part + 4 * y part",
-              construct="index coefficients %r" % (a,), node=fn)
-    # inverse in add_core: base_x from index % 4, base_y from index // 4
-    okx = oky = False
-    for d in afl.defs:
-        if d.mode == "assign" and d.var in ("base_x", "base_y"):
-            t = unparse(d.value)
-            want = ("int(self.%s + self.scale / 4 * (subregion %s 4))" % (
-                d.var, "%" if d.var == "base_x" else "//"))
-            if d.var == "base_x":
-                okx = t == want
-            else:
-                oky = t == want
-    rep.check(okx and oky, "C12-R2", qual(add), "a child's base is the "
-              "parent's base + (scale/4) * (index % 4) in x and (index // 4) "
-              "in y: the inverse of the index formula",
-              construct="child base", node=add)
-    # and the child is created one level down with those bases
+              ">> shift) & 3) at every level", construct="index forms %s" %
+              detail, node=add,
+              fail="the sub-block index of add_core differs from "
+                   "get_region_for_chip's: %s" % detail)
+    rep.check(shape, "C12-R2", qual(fn), "index = x part + 4 * y part",
+              construct="index coefficients", node=fn)
+    # the child: created one level down, its base inverts the index
     cr = [c for c in calls_in(add, "RegionCoreTree")]
-    okn = len(cr) == 1 and [unparse(a_) for a_ in cr[0].args] == [
-        "base_x", "base_y", "self.level + 1"]
+    okn = okb = len(cr) == 1
+    if okn:
+        n = A.cfg.node_containing(cr[0])
+        ci = program.get(TREE + ".__init__")
+        names = formals(ci)[1:]
+        b_ = dict(zip(names, [A.term(a_, n) for a_ in cr[0].args]))
+        for k in cr[0].keywords:
+            b_[k.arg] = A.term(k.value, n)
+        okn = plain(b_.get(names[2], ("?",))) in (
+            ("binop", "Add", ("attr", SELF, "level"), ("const", 1)),
+            ("binop", "Add", ("const", 1), ("attr", SELF, "level")))
+        afl = Flow(add)
+        for L in range(3):
+            sh = 6 - 2 * L
+            step = 4 ** (4 - L) // 4
+            for nm, var, want in (
+                    (names[0], "x", "self.base_x + %d * ((x >> %d) & 3)"),
+                    (names[1], "y", "self.base_y + %d * ((y >> %d) & 3)")):
+                got = _poly(afl, lv.at(b_.get(nm, ("?",)), L))
+                exp = afl.sym(_wp(ast.parse(want % (step, sh),
+                                            mode="eval").body),
+                              afl.cfg.entry)
+                if got != exp and not afl.prove(afl.cfg.entry, eq(got, exp),
+                                                use_facts=False):
+                    okb = False
+    rep.check(okb, "C12-R2", qual(add), "a child's base is the "
+              "parent's base + (scale/4) * (the index's x part) in x and "
+              "(its y part) in y: the inverse of the index formula",
+              construct="child base", node=add)
     rep.check(okn, "C12-R2", qual(add), "the child covers that sub-block at "
               "level + 1", construct="child construction", node=add)
 
@@ -230,227 +292,224 @@ def r2_index(program, rep, bitname):
 def r3_collapse(program, folder, rep):
     add = program.get(TREE + ".add_core")
     inst = qual(add)
-    fl = Flow(add)
-    cfg = fl.cfg
-    p = formals(add)[3]
-    sel = "self.locally_selected[%s]" % p
-    # full <=> == 0xffff, never at the root
-    trues = [r for r in returns_of(add) if isinstance(r.value, ast.Constant)
-             and r.value.value is True]
-    ok = False
-    for r in trues:
-        f = fl.facts(cfg.node_of(r))
-        full = any(isinstance(c, ast.Compare) and unparse(c.left) == sel and
-                   isinstance(c.ops[0], ast.Eq) and
-                   folder.eval(c.comparators[0], {}, add._module) == 0xffff
-                   and pol for c, pol, _ in f)
-        notroot = has_fact(f, "self.level != 0", True) or \
-            has_fact(f, "self.level == 0", False)
-        ok = full and notroot
-    rep.check(len(trues) == 1 and ok, "C12-R3", inst, "a node reports 'full' "
+    A = Terms(add)
+    cfg = A.cfg
+    ps = formals(add)
+    P_ = ("param", ps[3])
+    SEL = ("attr", SELF, "locally_selected")
+    CELL = ("item", SEL, P_)
+    LEVEL = ("attr", SELF, "level")
+    SUBS = ("attr", SELF, "subregions")
+    IDX = _index_term(A)
+    BITV = ("binop", "LShift", ("const", 1), IDX)
+    full = (mk_cmp("Eq", CELL, ("const", 0xffff)), True)
+    notroot = (mk_cmp("Eq", LEVEL, ("const", 0)), False)
+    paths = truth_paths(A)
+    ok = bool(paths)
+    for ps_ in paths:
+        here = set((plain(t), p) for t, p in ps_)
+        ok = ok and full in here and notroot in here
+    rep.check(ok, "C12-R3", inst, "a node reports 'full' "
               "for a core iff all 16 sub-blocks are selected (== 0xffff) and "
               "it is not the root", construct="collapse condition",
               node=add)
     # and clears its own selection when it does
-    okc = False
-    for r in trues:
-        rn = cfg.node_of(r)
-        for d in fl.defs:
-            if d.var == "self.locally_selected" and d.mode == "mut" and \
-                    isinstance(d.node.ast, ast.Assign) and \
-                    unparse(d.node.ast.targets[0]) == sel and \
-                    isinstance(d.node.ast.value, ast.Constant) and \
-                    d.node.ast.value.value == 0 and \
-                    cfg.dominates(d.node, rn):
-                okc = True
+    H = A.under(full, notroot)
+    clears = [x for x in stores(A) if plain(x[2]) == SEL and x[3] == P_ and
+              x[4] == ("const", 0)]
+    okc = len(clears) == 1 and H.live(clears[0][0]) and \
+        H.must_pass(cfg.entry, lambda n: n is clears[0][0],
+                    targets=[cfg.exit]) and \
+        full in [(plain(t), p) for t, p in A.all_facts(clears[0][0])]
     rep.check(okc, "C12-R3", inst, "a collapsing node clears its own "
               "selection (the parent's bit now stands for it)",
               construct="collapse clears", node=add)
-    # the parent sets exactly that child's bit iff the child returned True
-    oks = False
-    for c in calls_in(add, "add_core"):
-        recv = unparse(call_name(c)[1])
-        if recv != "self.subregions[subregion]":
-            continue
-        # the recursive call is the if-test; its true edge leads to |= bit
-        for n in cfg.nodes:
-            if n.kind == "assume" and n.ast is c and n.polarity:
-                sets = [d.node for d in fl.defs
-                        if d.var == "self.locally_selected" and
-                        d.mode == "mut" and
-                        isinstance(d.node.ast, ast.AugAssign) and
-                        unparse(d.node.ast.target) == sel and
-                        unparse(d.node.ast.value) == "1 << subregion"]
-                oks = any(s_ in n.succ for s_ in sets) and \
-                    [unparse(a_) for a_ in c.args] == formals(add)[1:]
-            if n.kind == "assume" and n.ast is c and not n.polarity:
-                # false edge must not set the bit
-                pass
+    # selections of sub-blocks
+    sets = [x for x in stores(A) if plain(x[2]) == SEL and x[3] == P_ and
+            plain(x[4]) in (("binop", "BitOr", CELL, plain(BITV)),
+                            ("binop", "BitOr", plain(BITV), CELL))]
+    rec = [(n, c, recv, args) for n, c, recv, args in
+           method_calls(A, "add_core")]
+    oks = okd = False
+    child = None
+    if len(rec) == 1:
+        n, c, recv, args = rec[0]
+        child = recv
+        is_child = any(plain(x) == ("item", SUBS, plain(IDX)) or (
+            plain(x)[0] == "call" and
+            plain(x)[1] == ("global", "RegionCoreTree"))
+            for x in alternatives(recv))
+        callt = A.term(c, n)
+        oks = is_child and args == [("param", p_) for p_ in ps[1:]] and any(
+            (callt, True) in A.all_facts(s_[0]) for s_ in sets)
+        test = ("binop", "BitAnd", CELL, plain(BITV))
+        test2 = ("binop", "BitAnd", plain(BITV), CELL)
+        okd = any(p is False and plain(t) in (test, test2)
+                  for t, p in A.all_facts(n))
     rep.check(oks, "C12-R3", inst, "the parent selects a sub-block exactly "
               "when the child covering it reported full for that core (and "
               "forwards the same x, y, p)", construct="parent bit on full",
               node=add)
-    # no double selection: descent only if the sub-block is not selected yet
-    okd = False
-    for c in calls_in(add, "add_core"):
-        f = fl.facts(cfg.node_containing(c))
-        okd = any(unparse(cd) == "%s & 1 << subregion" % sel and not pol
-                  for cd, pol, _ in f)
     rep.check(okd, "C12-R3", inst, "a sub-block already selected for the "
               "core is not descended into again (nothing is selected twice)",
               construct="no double selection", node=add)
     # children are only ever created (under 'is None'), never discarded
-    stores = [d for d in fl.defs if d.var == "self.subregions" and
-              d.mode == "mut" and isinstance(d.node.ast, ast.Assign)]
-    okst = bool(stores)
-    for d in stores:
-        v = d.node.ast.value
-        f = fl.facts(d.node)
-        okst = okst and isinstance(v, ast.Call) and \
-            call_name(v)[0] == "RegionCoreTree" and \
-            has_fact(f, "self.subregions[subregion] is None", True)
-    others = [n for n in ast.walk(program.get(TREE)) if
-              isinstance(n, (ast.Assign, ast.Delete)) and
-              "self.subregions[" in unparse(n).split("=")[0] and
-              not any(n is d.node.ast for d in stores)]
-    rep.check(okst and not others, "C12-R3", inst, "child sub-trees are only "
-              "created (when missing), never replaced or discarded - other "
-              "cores' partial selections below a collapsed block survive",
-              construct="subtree stores %d/%d" % (len(stores), len(others)),
+    sub_st = [x for x in stores(A) if plain(x[2]) == SUBS]
+    okst = bool(sub_st)
+    for n, st, base, key, val in sub_st:
+        pv = plain(val)
+        okst = okst and key == IDX and pv[0] == "call" and \
+            pv[1] == ("global", "RegionCoreTree") and \
+            (is_none(("item", SUBS, IDX)), True) in [
+                (plain(t), p) for t, p in A.all_facts(n)]
+    cls = program.get(TREE)
+    others = 0
+    for m_ in cls.body:
+        if isinstance(m_, ast.FunctionDef) and m_.name not in ("__init__",
+                                                               "add_core"):
+            for n_ in ast.walk(m_):
+                if isinstance(n_, (ast.Assign, ast.Delete, ast.AugAssign)):
+                    tg = n_.targets if not isinstance(n_, ast.AugAssign) \
+                        else [n_.target]
+                    others += sum(1 for t_ in tg if isinstance(
+                        t_, ast.Subscript) and
+                        chain(t_.value) == "self.subregions")
+    dels = sum(1 for n_ in ast.walk(add) if isinstance(n_, ast.Delete))
+    rep.check(okst and not others and not dels, "C12-R3", inst, "child "
+              "sub-trees are only created (when missing), never replaced or "
+              "discarded - other cores' partial selections below a "
+              "collapsed block survive",
+              construct="subtree stores %d/%d" % (len(sub_st), others),
               node=add,
               fail="a child sub-tree is overwritten or released: selections "
                    "held further down (for other cores) are lost")
-    # leaf level: select directly
-    okl = False
-    for d in fl.defs:
-        if d.var == "self.locally_selected" and d.mode == "mut" and \
-                isinstance(d.node.ast, ast.AugAssign):
-            f = fl.facts(d.node)
-            if has_fact(f, "self.level == 3", True):
-                okl = unparse(d.node.ast.value) == "1 << subregion"
+    okl = any((mk_cmp("Eq", LEVEL, ("const", 3)), True) in [
+        (plain(t), p) for t, p in A.all_facts(s_[0])] for s_ in sets)
     rep.check(okl, "C12-R3", inst, "at the chip level the chip's bit is set "
               "directly", construct="leaf select", node=add)
     # child array has 16 entries <-> 0xffff
-    init = program.get(TREE + ".__init__")
-    ok16 = any(isinstance(n, ast.BinOp) and isinstance(n.op, ast.Mult) and
-               unparse(n) == "[None] * 16" for n in ast.walk(init))
-    rep.check(ok16, "C12-R3", qual(init), "16 children per node (matches "
+    lv = _Levels(program)
+    I = Terms(lv.init)
+    ok16 = False
+    for b_ in I.binds:
+        if b_.var == "self.subregions" and b_.mode == "assign":
+            t = plain(I._bind_term(b_))
+            ok16 = t in (("binop", "Mult", ("const", 16), ("list",
+                                                          ("const", None))),
+                         ("binop", "Mult", ("list", ("const", None)),
+                          ("const", 16)),
+                         ("listcomp", ("const", None),
+                          ((("call", ("global", "range"), (("const", 16),),
+                             ()), ()),)))
+    rep.check(ok16, "C12-R3", qual(lv.init), "16 children per node (matches "
               "the 16-bit selection word)", construct="child array size",
-              node=init)
+              node=lv.init)
     # traversal visits all 16 children
     g = program.get(TREE + ".get_regions_and_coremasks")
-    loops = [n for n in ast.walk(g) if isinstance(n, ast.For) and
-             any(isinstance(s, ast.Subscript) and
-                 chain(s.value) == "self.subregions"
-                 for s in ast.walk(n))]
+    G = Terms(g)
     idx = None
-    if loops:
-        lp = loops[-1] if len(loops) == 1 else loops[0]
-        sub = [s for s in ast.walk(lp) if isinstance(s, ast.Subscript) and
-               chain(s.value) == "self.subregions"][0]
-        iname = chain(sub.slice)
+    keys = set()
+    for n_ in ast.walk(g):
+        if isinstance(n_, ast.Subscript) and \
+                chain(n_.value) == "self.subregions":
+            keys.add(G.term(n_.slice, G.cfg.node_containing(n_)))
+    if len(keys) == 1:
+        key = list(keys)[0]
+        loops = sorted(set(st for st in subterms(key)
+                           if st[0] == "elem" and st[1][0] == "call" and
+                           st[1][1] == ("global", "range")), key=repr)
         try:
-            dom = folder.eval(lp.iter, {}, g._module)
-            if chain(lp.target) == iname:
-                idx = list(dom)
-            else:
-                # index computed from the loop variable
-                asg = [s for s in lp.body if isinstance(s, ast.Assign) and
-                       chain(s.targets[0]) == iname]
-                if asg:
-                    idx = [folder.eval(asg[0].value, {chain(lp.target): v},
-                                       g._module) for v in dom]
-        except AnalysisError:
+            doms = [list(range(*[a[1] for a in lp[1][2]])) for lp in loops]
+            import itertools
+            idx = []
+            for combo in itertools.product(*doms):
+                t = _fold(_subst(key, {lp: ("const", v)
+                                       for lp, v in zip(loops, combo)}))
+                idx.append(t[1] if t[0] == "const" else None)
+        except Exception:
             idx = None
-    rep.check(idx is not None and sorted(idx) == list(range(16)), "C12-R3",
+    rep.check(idx is not None and None not in idx and
+              sorted(idx) == list(range(16)), "C12-R3",
               qual(g), "the traversal visits each of the 16 children exactly "
               "once", construct="traversal indices %s" % (
-                  sorted(idx) if idx is not None else None), node=g,
+                  sorted(idx) if idx is not None and None not in idx
+                  else None), node=g,
               fail="the traversal's child indices are %s, not a permutation "
                    "of 0..15: a sub-block's cores are never emitted" % (
-                       sorted(idx) if idx is not None else "not foldable"))
-    # children only below level 3, own pairs first
+                       sorted(idx) if idx is not None and None not in idx
+                       else "not foldable"))
     rep.floor("C12-R3", 8)
 
 
 def r4_order(program, folder, rep):
     fn = program.get(MOD + ":compress_flood_fill_regions")
     inst = qual(fn)
-    rets = returns_of(fn)
+    T = Terms(fn)
+    rets = [(T.cfg.node_of(r), T.term(r.value)) for r in returns_of(fn)
+            if r.value is not None]
     ok = False
     detail = ""
-    if len(rets) == 1 and isinstance(rets[0].value, ast.Call) and \
-            call_name(rets[0].value)[0] == "sorted":
-        c = rets[0].value
-        key = [k.value for k in c.keywords if k.arg == "key"]
-        rev = [k.value for k in c.keywords if k.arg == "reverse"]
-        src_ok = c.args and isinstance(c.args[0], ast.Call) and \
-            call_name(c.args[0])[0] == "get_regions_and_coremasks"
-        if not key and not rev:
-            ok = bool(src_ok)
-            detail = "natural (region, mask) order"
-        elif key and not rev and isinstance(key[0], ast.Lambda):
-            body = key[0].body
-            arg = key[0].args.args[0].arg
-            if isinstance(body, ast.Tuple):
-                ok = [unparse(e) for e in body.elts] == [
-                    "%s[0]" % arg, "%s[1]" % arg] and bool(src_ok)
-                detail = "key tuple"
-            else:
-                lay = provenance(body)
-                pcs = {p.src: p for p in lay.pieces}
-                r_, m_ = pcs.get("%s[0]" % arg), pcs.get("%s[1]" % arg)
-                # core masks are 18 bits wide
-                ok = r_ is not None and m_ is not None and \
-                    m_.dst_lo == 0 and r_.dst_lo >= 18 and bool(src_ok)
-                detail = "key %r" % (lay,)
+    if len(rets) == 1:
+        rn, t = rets[0]
+        pt = plain(t)
+
+        def walk(x):
+            return x[0] == "call" and x[1][0] == "attr" and \
+                x[1][2] == "get_regions_and_coremasks" and \
+                x[1][1][0] == "call" and \
+                x[1][1][1] == ("global", "RegionCoreTree")
+        if pt[0] == "call" and pt[1] == ("global", "sorted") and \
+                len(pt[2]) == 1 and not pt[3]:
+            ok = walk(pt[2][0])
+            detail = "sorted(...)"
+        elif pt[0] == "call" and pt[1] == ("global", "list") and \
+                len(pt[2]) == 1 and walk(pt[2][0]):
+            srt = [x for x in method_calls(T, "sort")
+                   if x[2] == t and not x[1].keywords and not x[3]]
+            ok = len(srt) == 1 and T.cfg.dominates(srt[0][0], rn)
+            detail = "list(...) then .sort()"
     rep.check(ok, "C12-R4", inst, "the pairs are returned sorted by region "
               "word, then core mask (strictly increasing, as the loader "
-              "requires)", construct="result order: %s" % detail,
-              node=rets[0] if rets else fn,
-              fail="the result is not sorted by (region, core mask): %s" %
-                   detail)
-    # every requested core is added with its own chip coordinates
-    fl = Flow(fn)
-    adds = calls_in(fn, "add_core")
-    oka = False
-    if len(adds) == 1:
-        lp = adds[0]._parent
-        outer = None
-        while lp is not None and lp is not fn:
-            if isinstance(lp, ast.For):
-                outer = lp
-            lp = lp._parent
-        if outer is not None and isinstance(outer.target, ast.Tuple) and \
-                isinstance(outer.target.elts[0], ast.Tuple):
-            xy = [chain(e) for e in outer.target.elts[0].elts]
-            oka = [chain(a) for a in adds[0].args][:2] == xy
+              "requires)", construct="result order: %s" % detail, node=fn,
+              fail="the result is not sorted by (region, core mask)")
+    # every requested core is added with its own chip coordinates, to a tree
+    # that starts at the root (level 0: the whole machine)
+    E = ("elem", ("items", ("param", formals(fn)[0])))
+    adds = method_calls(T, "add_core")
+    roots = [c for c in calls_in(fn, "RegionCoreTree")]
+    rep.check(len(roots) == 1 and not roots[0].args and
+              not roots[0].keywords and len(adds) == 1 and
+              plain(adds[0][2]) == ("call", ("global", "RegionCoreTree"),
+                                    (), ()), "C12-R4", inst,
+              "the cores are collected in one tree that starts at the root "
+              "(only the root never collapses, so nothing a full block "
+              "reports upwards is lost)", construct="root tree", node=fn,
+              fail="the region tree is not started at the root level: a "
+                   "block that fills completely reports 'full' to a parent "
+                   "that does not exist and its cores are dropped")
+    oka = len(adds) == 1 and adds[0][3] == [
+        ("comp", ("comp", E, 0), 0), ("comp", ("comp", E, 0), 1),
+        ("elem", ("comp", E, 1))]
     rep.check(oka, "C12-R4", inst, "each target core is inserted under its "
               "chip's own (x, y)", construct="add_core arguments", node=fn)
     add = program.get(TREE + ".add_core")
-    afl = Flow(add)
-    p = formals(add)[3]
-    okp = False
-    for r in raises_of(add):
-        t = r._parent
-        while t is not None and not isinstance(t, ast.If):
-            t = t._parent
-        if t is None:
-            continue
-        alts = []
-
-        def flat(e):
-            if isinstance(e, ast.BoolOp) and isinstance(e.op, ast.Or):
-                for v in e.values:
-                    flat(v)
-            else:
-                alts.append(unparse(e))
-        flat(t.test)
-        okp = ("%s < 0" % p in alts) and (("%s > 17" % p in alts) or
-                                          ("%s >= 18" % p in alts))
-    init = program.get(TREE + ".__init__")
-    ok18 = any(isinstance(n, ast.Call) and unparse(n) == "range(18)"
-               for n in ast.walk(init))
+    A = Terms(add)
+    P_ = ("param", formals(add)[3])
+    rz = [A.cfg.node_of(r) for r in raises_of(add)]
+    okp = bool(rz)
+    for hyps in ([(mk_cmp("Lt", P_, ("const", 0)), True)],
+                 [(mk_cmp("Lt", ("const", 17), P_), True),
+                  (mk_cmp("LtE", ("const", 18), P_), True)]):
+        H = A.under(*hyps)
+        okp = okp and H.must_pass(A.cfg.entry, lambda n: n in rz,
+                                  targets=[A.cfg.exit])
+    lv = _Levels(program)
+    sel = plain(lv.attr["locally_selected"])
+    ok18 = any(st in (("call", ("global", "range"), (("const", 18),), ()),
+                      ("binop", "Mult", ("const", 18), ("list", ("const",
+                                                                 0))),
+                      ("binop", "Mult", ("list", ("const", 0)),
+                       ("const", 18))) for st in subterms(sel))
     rep.check(okp and ok18, "C12-R4", qual(add), "core numbers outside 0..17 "
               "are rejected; the per-core array has 18 entries",
               construct="core range", node=add)
@@ -466,11 +525,11 @@ def r4_order(program, folder, rep):
 def check(program, rep):
     program.module(MOD)
     folder = Folder(program)
-    bitname = rep.guard("C12-R1", r1_layout, program, folder, rep)
-    rep.guard("C12-R2", r2_index, program, rep, bitname)
+    bit = rep.guard("C12-R1", r1_layout, program, folder, rep)
+    rep.guard("C12-R2", r2_index, program, rep, bit)
     rep.guard("C12-R3", r3_collapse, program, folder, rep)
     rep.guard("C12-R4", r4_order, program, folder, rep)
-    rep.floor("C12-R1", 8)
+    rep.floor("C12-R1", 5)
     rep.floor("C12-R2", 7)
     return finish(rep, program, EXPLANATION, NOT_DECIDED,
                   trusted=["region word layout as stated in the property and "
